@@ -238,7 +238,10 @@ def preface_state(run, i, c):
 
 def before_buf_empty(run, i, c):
     """was c's inbound buffer empty before op i (last peek field of the previous obs of c), and — for a server — is
-    the client preface out of the way (already received, or leading this very delivery)"""
+    the client preface out of the way (already received, or leading this very delivery), and no header block
+    waiting for its CONTINUATION frames (anything but CONTINUATION is then a connection error, RFC 7540 6.10)"""
+    if run.log[i][3] is not None and run.log[i][3]['snap_before'].get('hdr_pending'):
+        return False
     if not run.world.conns[c].client:
         n, ok = preface_state(run, i, c)
         op = run.log[i][0]
@@ -458,6 +461,12 @@ def oracle_C03(run):
             for s in snap_a['streams']:
                 if s not in L.streams and s not in snap_b['streams']:
                     L.streams[s] = L.iws
+            # a stream that this very delivery closed: whether a WINDOW_UPDATE for it came before or after the
+            # closing frame cannot be told from outside, and nothing can be sent on it any more, so its last
+            # window is taken from the library (it is only ever read back by local_flow_control_window)
+            for s, st in snap_a['streams'].items():
+                if s in L.streams and st[0] == 'CLOSED' and (s not in snap_b['streams'] or snap_b['streams'][s][0] != 'CLOSED'):
+                    L.streams[s] = st[2]
             # compare where the library still tracks the stream
             for s, st in snap_a['streams'].items():
                 if s in L.streams and st[0] != 'CLOSED' and st[2] != L.streams[s]:
@@ -652,14 +661,21 @@ def oracle_C05(run):
                 if n > S['sacked'].get(s, 0):
                     out.append(fail('stream-over-credit', i, sid=s, emitted=n, acked=S['sacked'].get(s, 0)))
                     S['taint'] = True
-            # stall: everything acknowledged and still nothing to receive into
-            if not S['taint'] and S['acked'] == S['recv'] and sa['state'] != 'CLOSED':
-                for s, v in sa['streams'].items():
-                    if v[0] in ('OPEN', 'HALF_CLOSED_LOCAL') and S['sacked'].get(s, 0) == S['srecv'].get(s, 0) \
-                            and v[4] is not None and v[4] > 0 and v[3] <= 0:
-                        out.append(fail('stream-window-stalled', i, sid=s, win=v[3], max=v[4]))
-                        S['taint'] = True
-                        break
+        # stall: everything acknowledged and still nothing to receive into.  Judged where the advertised window
+        # can change with nothing outstanding: after an acknowledgement, and after a delivery that acknowledged
+        # our own SETTINGS (an INITIAL_WINDOW_SIZE change moves every stream window, RFC 7540 6.9.2).
+        after = None
+        if op['op'] == 'ack_data' and r[0] == 'ok':
+            after = 'ack'
+        elif is_recv(op) and r[0] == 'ok' and any(isinstance(e, EV.SettingsAcknowledged) for e in obs['raw_events']):
+            after = 'settings-ack'
+        if after and not S['taint'] and S['acked'] == S['recv'] and sa['state'] != 'CLOSED':
+            for s, v in sa['streams'].items():
+                if v[0] in ('OPEN', 'HALF_CLOSED_LOCAL') and S['sacked'].get(s, 0) == S['srecv'].get(s, 0) \
+                        and v[4] is not None and v[4] > 0 and v[3] <= 0:
+                    out.append(fail('stream-window-stalled', i, sid=s, win=v[3], max=v[4], after=after))
+                    S['taint'] = True
+                    break
     return out
 
 
@@ -804,6 +820,9 @@ def oracle_C08(run):
                 g['ended'] = True
         else:
             if g is None:
+                # DATA / END_STREAM went out on a stream that nobody opened: no successful send_headers, no
+                # request from the peer, no promise, no upgrade
+                out.append(fail('data-or-end-stream-before-final-headers', i, sid=sid, op=o, opened_by='nobody'))
                 continue
             if not g['final']:
                 out.append(fail('data-or-end-stream-before-final-headers', i, sid=sid, op=o, opened_by=g['opened_by']))
